@@ -5,6 +5,7 @@ package meta
 import (
 	"github.com/coregx/coregex/dfa/lazy"
 	"github.com/coregx/coregex/nfa"
+	"github.com/coregx/coregex/prefilter"
 )
 
 // Verification-only accessors (build tag "verif"): read-only peeks at recycled
@@ -128,3 +129,6 @@ func (e *Engine) VerifCachePools() map[string]any {
 	}
 	return m
 }
+
+// VerifPrefilter returns the engine's prefix prefilter (nil if none).
+func (e *Engine) VerifPrefilter() prefilter.Prefilter { return e.prefilter }
